@@ -200,7 +200,8 @@ def dstep (s : DS) (toks : List String) : DS × List String :=
     | some id =>
       if k == "raw" || k == "rawpre" then
         if id ≥ 16 || (s.conn id).isSome then badOp s else
-        finishOp { s with conns := insertConn { id := id, kind := if k == "raw" then .raw else .rawpre } s.conns } []
+        finishOp { s with conns := insertConn { id := id, kind := if k == "raw" then .raw else .rawpre,
+                                                cl := { normal := k == "raw" } } s.conns } []
       else if k == "close" then
         match s.conn id with
         | some c =>
